@@ -33,21 +33,25 @@ pub struct Item {
     pub code: Option<i32>,
     pub kind: &'static str,
     pub has_exit_code: bool,
+    /// Markdown only: the test case is marked `detached: true` (not a test: at most one result, a success)
+    pub detached: bool,
 }
 
-pub const ITEMS: [Item; 11] = [
+pub const ITEMS: [Item; 12] = [
+    // a detached helper before other tests: results must stay attached to their own test cases
+    Item { name: "detached-helper", md: "sleep 0.05", cram: "true", expectations: &[], code: None, kind: "success", has_exit_code: true, detached: true },
     // a shell killed by signal N is not a shell that exited with 128+N: even when the document expects that code
-    Item { name: "kill-9-expecting-137", md: "kill -9 $$", cram: "kill -9 $$", expectations: &[], code: Some(137), kind: "", has_exit_code: false },
-    Item { name: "kill-term-expecting-143", md: "kill -TERM $$", cram: "kill -TERM $$", expectations: &[], code: Some(143), kind: "", has_exit_code: false },
-    Item { name: "true", md: "true", cram: "true", expectations: &[], code: None, kind: "success", has_exit_code: true },
-    Item { name: "exit1", md: "exit 1", cram: "(exit 1)", expectations: &[], code: None, kind: "invalid_exit_code", has_exit_code: true },
-    Item { name: "exit2-expected", md: "exit 2", cram: "(exit 2)", expectations: &[], code: Some(2), kind: "success", has_exit_code: true },
-    Item { name: "prints-expected", md: "echo hello", cram: "echo hello", expectations: &["hello"], code: None, kind: "success", has_exit_code: true },
-    Item { name: "prints-other", md: "echo other", cram: "echo other", expectations: &["hello"], code: None, kind: "malformed_output", has_exit_code: true },
-    Item { name: "kill-9", md: "kill -9 $$", cram: "kill -9 $$", expectations: &[], code: None, kind: "", has_exit_code: false },
-    Item { name: "kill-term", md: "kill -TERM $$", cram: "kill -TERM $$", expectations: &[], code: None, kind: "", has_exit_code: false },
-    Item { name: "exec-nonexistent", md: "exec /nonexistent/program", cram: "(exec /nonexistent/program)", expectations: &["* (glob*)"], code: None, kind: "invalid_exit_code", has_exit_code: true },
-    Item { name: "wrong-code-and-output", md: "echo other; exit 3", cram: "echo other; (exit 3)", expectations: &["hello"], code: Some(2), kind: "invalid_exit_code", has_exit_code: true },
+    Item { name: "kill-9-expecting-137", md: "kill -9 $$", cram: "kill -9 $$", expectations: &[], code: Some(137), kind: "", has_exit_code: false, detached: false },
+    Item { name: "kill-term-expecting-143", md: "kill -TERM $$", cram: "kill -TERM $$", expectations: &[], code: Some(143), kind: "", has_exit_code: false, detached: false },
+    Item { name: "true", md: "true", cram: "true", expectations: &[], code: None, kind: "success", has_exit_code: true, detached: false },
+    Item { name: "exit1", md: "exit 1", cram: "(exit 1)", expectations: &[], code: None, kind: "invalid_exit_code", has_exit_code: true, detached: false },
+    Item { name: "exit2-expected", md: "exit 2", cram: "(exit 2)", expectations: &[], code: Some(2), kind: "success", has_exit_code: true, detached: false },
+    Item { name: "prints-expected", md: "echo hello", cram: "echo hello", expectations: &["hello"], code: None, kind: "success", has_exit_code: true, detached: false },
+    Item { name: "prints-other", md: "echo other", cram: "echo other", expectations: &["hello"], code: None, kind: "malformed_output", has_exit_code: true, detached: false },
+    Item { name: "kill-9", md: "kill -9 $$", cram: "kill -9 $$", expectations: &[], code: None, kind: "", has_exit_code: false, detached: false },
+    Item { name: "kill-term", md: "kill -TERM $$", cram: "kill -TERM $$", expectations: &[], code: None, kind: "", has_exit_code: false, detached: false },
+    Item { name: "exec-nonexistent", md: "exec /nonexistent/program", cram: "(exec /nonexistent/program)", expectations: &["* (glob*)"], code: None, kind: "invalid_exit_code", has_exit_code: true, detached: false },
+    Item { name: "wrong-code-and-output", md: "echo other; exit 3", cram: "echo other; (exit 3)", expectations: &["hello"], code: Some(2), kind: "invalid_exit_code", has_exit_code: true, detached: false },
 ];
 
 fn document(items: &[usize], cram: bool) -> String {
@@ -64,7 +68,7 @@ fn document(items: &[usize], cram: bool) -> String {
             }
             d.push('\n');
         } else {
-            d.push_str(&format!("# Test {i}\n\n```scrut\n$ {}\n", item.md));
+            d.push_str(&format!("# Test {i}\n\n```scrut{}\n$ {}\n", if item.detached { " {detached: true}" } else { "" }, item.md));
             for e in item.expectations {
                 d.push_str(&format!("{e}\n"));
             }
@@ -217,24 +221,47 @@ impl Engine for VcVerdict {
                 match (&kinds, killer) {
                     (Ok(k), None) => {
                         let want: Vec<&str> = items.iter().map(|i| ITEMS[*i].kind).collect();
-                        if k.iter().map(|s| s.as_str()).collect::<Vec<_>>() != want {
-                            res.findings.push(Finding::new("C05", "result-kind-per-test", format!("{}: {want:?}", describe()), format!("{k:?} (exit status {status:?})")).tag(tag));
+                        // every result belongs to the test case the reference says; a detached Markdown test case has at most one result
+                        let titled: Vec<(String, &str, bool)> = items.iter().enumerate().map(|(i, it)| (format!("Test {i}"), ITEMS[*it].kind, ITEMS[*it].detached && !*cram)).collect();
+                        let got_titled = run.json_results().unwrap_or_default();
+                        fn rec(g: &[(String, String)], w: &[(String, &str, bool)]) -> bool {
+                            match w.first() {
+                                None => g.is_empty(),
+                                Some((t, k, optional)) => {
+                                    (g.first().map(|x| x.0 == *t && x.1 == *k).unwrap_or(false) && rec(&g[1..], &w[1..])) || (*optional && rec(g, &w[1..]))
+                                }
+                            }
+                        }
+                        let _ = k;
+                        if !rec(&got_titled, &titled) {
+                            res.findings.push(Finding::new("C05", "result-kind-per-test", format!("{}: {titled:?}", describe()), format!("{got_titled:?} (exit status {status:?})")).tag(tag));
                         }
                         let want_status = if want.iter().any(|w| *w != "success") { 50 } else { 0 };
                         if status != Some(want_status) {
                             res.findings.push(Finding::new("C05", "exit-status", format!("{}: {want_status}", describe()), format!("{status:?}; stderr: {}", run.stderr_str().lines().last().unwrap_or(""))).tag(tag));
                         }
                     }
-                    (Ok(k), Some(ki)) => {
-                        // before the killed command: as the reference says; from it on: never success
-                        for (i, kind) in k.iter().enumerate() {
+                    (Ok(_), Some(ki)) => {
+                        // before the killed command: as the reference says; from it on: never success (results are identified by title)
+                        let got_titled = run.json_results().unwrap_or_default();
+                        for (title, kind) in &got_titled {
+                            let Some(i) = title.strip_prefix("Test ").and_then(|n| n.parse::<usize>().ok()).filter(|i| *i < items.len()) else {
+                                res.findings.push(Finding::new("C05", "result-kind-per-test", format!("{}: results carry the titles of the document's test cases", describe()), format!("{got_titled:?}")).tag(tag));
+                                break;
+                            };
                             if i < ki {
                                 if kind != ITEMS[items[i]].kind {
-                                    res.findings.push(Finding::new("C05", "result-kind-per-test", format!("{}: test {i} {}", describe(), ITEMS[items[i]].kind), kind.clone()).tag(tag));
+                                    res.findings.push(Finding::new("C05", "result-kind-per-test", format!("{}: test {i} {}", describe(), ITEMS[items[i]].kind), format!("{got_titled:?}")).tag(tag));
                                 }
                             } else if kind == "success" {
-                                res.findings.push(Finding::new("C05", "no-success-without-exit-code", format!("{}: test {i} (the command killed by a signal, or a test after it) is not reported as success", describe()), format!("{k:?}")).tag(tag));
+                                res.findings.push(Finding::new("C05", "no-success-without-exit-code", format!("{}: test {i} (the command killed by a signal, or a test after it) is not reported as success", describe()), format!("{got_titled:?}")).tag(tag));
                                 break;
+                            }
+                        }
+                        for i in 0..ki {
+                            let item = &ITEMS[items[i]];
+                            if !(item.detached && !*cram) && !got_titled.iter().any(|(t, _)| *t == format!("Test {i}")) {
+                                res.findings.push(Finding::new("C05", "result-kind-per-test", format!("{}: a result for test {i}", describe()), format!("{got_titled:?}")).tag(tag));
                             }
                         }
                         if status == Some(0) {
